@@ -466,3 +466,181 @@ def truth_time_of_level(plan, h):
     if h == L[-1]:
         return Fraction(len(L) - 1)
     return None
+
+
+# ------------------------------------------------------------------ the views against their Coq model
+
+VIEWS_PRE = 'From Spowtd Require Import Model.ViewsCase.\n'
+VIEWS_MODELS = ['Model/Views.vo', 'Model/ViewsCase.vo']
+
+
+def dump_views(db):
+    """Everything the master-curve views are computed from, and what the real views return - rows in the order
+    SQLite returns them (the views have no ORDER BY; the order is part of what is compared)."""
+    con = sqlite3.connect(db)
+    try:
+        q = lambda sql: con.execute(sql).fetchall()         # noqa: E731
+        d = dict(
+            grid=[r[0] for r in q('SELECT zeta_number FROM discrete_zeta')],
+            step=[r[0] for r in q('SELECT grid_interval_mm FROM zeta_grid')],
+            rise=dict(offsets=q('SELECT start_epoch, rain_depth_offset_mm FROM rising_interval'),
+                      crossings=q('SELECT start_epoch, zeta_number, mean_crossing_depth_mm FROM rising_interval_zeta'),
+                      view=q('SELECT zeta_mm, mean_crossing_depth_mm FROM average_rising_depth')),
+            recession=dict(offsets=q('SELECT start_epoch, time_offset_s FROM recession_interval'),
+                           crossings=q('SELECT start_epoch, zeta_number, mean_crossing_time FROM recession_interval_zeta'),
+                           view=q('SELECT zeta_mm, elapsed_time_s FROM average_recession_time')),
+            pairing=q('SELECT interval_start_epoch, storm_start_epoch FROM zeta_interval_storm'),
+            zint=q('SELECT start_epoch, thru_epoch FROM zeta_interval'),
+            wl=q('SELECT epoch, zeta_mm FROM water_level'),
+            storms=q('SELECT start_epoch, thru_epoch FROM storm'),
+            rain=q('SELECT from_epoch, thru_epoch, rainfall_intensity_mm_h FROM rainfall_intensity'),
+            segments=q('SELECT interval_start_epoch, rain_depth_offset_mm, rain_total_depth_mm, initial_zeta_mm, '
+                       'final_zeta_mm FROM rising_curve_line_segment'))
+    finally:
+        con.close()
+    return d
+
+
+def _no_null(rows):
+    return all(v is not None for r in rows for v in r)
+
+
+def _rows(rows, fmts):
+    return C.clist(['(' + ', '.join(f(v) for f, v in zip(fmts, r)) + ')' for r in rows])
+
+
+def view_case_string(d, kind):
+    """Coq literal `AvgCase (offsets, crossings, grid levels, step, rows of the real view)` (Model/ViewsCase.v): the
+    values are bit-exact binary64 literals, which Coq turns into the exact rationals they denote (float_to_Q; a
+    non-finite value fails the case).  None when a value is NULL (reported by the caller)."""
+    k = d[kind]
+    if not (_no_null(k['offsets']) and _no_null(k['crossings']) and _no_null(k['view'])):
+        return None
+    # no row in zeta_grid: the last join of the view has no partner, whatever discrete_zeta holds
+    grid, step = (d['grid'], d['step'][0]) if d['step'] else ([], 1.0)
+    return 'AvgCase (%s, %s, %s, %s, %s)' % (
+        _rows(k['offsets'], (C.cZ, C.cfloat)), _rows(k['crossings'], (C.cZ, C.cZ, C.cfloat)), C.cZs(grid), C.cfloat(step),
+        _rows(k['view'], (C.cfloat, C.cfloat)))
+
+
+def _seg_tables(d):
+    """The rows of the two big tables that can take part in the joins of rising_curve_line_segment: water levels at
+    the ends of some interval, rainfall inside the span of the storms.  The rows left out (thousands per database)
+    satisfy no join condition of the view; the model evaluates the joins themselves on what is passed."""
+    ends = {e for e, _ in d['zint']} | {t for _, t in d['zint']}
+    wl = [r for r in d['wl'] if r[0] in ends]
+    lo = min([s for s, _ in d['storms']], default=None)
+    hi = max([t for _, t in d['storms']], default=None)
+    rain = [r for r in d['rain'] if lo is not None and r[0] >= lo and r[1] <= hi]
+    return wl, rain
+
+
+def seg_case_string(d):
+    wl, rain = _seg_tables(d)
+    if not (_no_null(wl) and _no_null(rain) and _no_null(d['rise']['offsets']) and _no_null(d['segments'])):
+        return None
+    zz = (C.cZ, C.cZ)
+    return 'SegCase (%s, %s, %s, %s, %s, %s, %s)' % (
+        _rows(d['pairing'], zz), _rows(d['zint'], zz), _rows(wl, (C.cZ, C.cfloat)), _rows(d['storms'], zz),
+        _rows(rain, (C.cZ, C.cZ, C.cfloat)), _rows(d['rise']['offsets'], (C.cZ, C.cfloat)),
+        _rows(d['segments'], (C.cZ, C.cfloat, C.cfloat, C.cfloat, C.cfloat)))
+
+
+def _balanced(strs, jobs=16):
+    """Order the cases so that consecutive groups of `shard` (what run_case_shards slices) carry about the same amount
+    of text - Coq's time goes into reading the literals.  Returns (order, shard)."""
+    n = len(strs)
+    if n == 0:
+        return [], 1
+    shard = -(-n // min(jobs, n))
+    nb = -(-n // shard)
+    cap = [shard] * (nb - 1) + [n - (nb - 1) * shard]
+    bins, load = [[] for _ in range(nb)], [0] * nb
+    for i in sorted(range(n), key=lambda i: -len(strs[i])):        # largest first, into the lightest bin with room
+        b = min((b for b in range(nb) if len(bins[b]) < cap[b]), key=lambda b: load[b])
+        bins[b].append(i)
+        load[b] += len(strs[i])
+    return [i for b in bins for i in b], shard
+
+
+def check_views_coq(prop, label, items, out, what=lambda case: ''):
+    """items: [(dump_views(db), case)].  For every database: Model/Views.v evaluated INSIDE Coq on the dumped tables
+    (exact rationals) against the rows the real SQLite views return -
+      view_average  vs average_rising_depth / average_recession_time: same number of rows, same levels in the same
+                    order, values within 1e-9 of the magnitude of the terms (SQLite adds in binary64);
+      curve_levels  (conclusion of C13_view_shows_every_stored_level): the real view lists EVERY level at which an
+                    aligned interval has a crossing row;
+      view_line_segments vs rising_curve_line_segment: same rows (by interval), offsets and levels exactly, depth 1e-9.
+    Reports 'corr' violations on `out`; returns the seconds spent in Coq."""
+    strs, meta = [], []
+    for d, case in items:
+        for kind in ('rise', 'recession'):
+            if not d[kind]['offsets'] and not d[kind]['crossings'] and not d[kind]['view']:
+                out.count('views-coq:%s:no-curve' % kind)
+                continue
+            s = view_case_string(d, kind)
+            if s is None:
+                out.violation('corr', 'view %s or its tables hold NULL values%s: %r'
+                              % (KINDS[kind][3], what(case), d[kind]['view'][:4]), case=case)
+                continue
+            strs.append(s)
+            meta.append((d, kind, case))
+            out.count('views-coq:%s' % kind)
+            if d[kind]['view'] and d['step'] and max(z for z, _ in d[kind]['view']) > 0:
+                out.count('views-coq:%s:top-level-positive' % kind)
+        if d['pairing'] or d['segments']:
+            s = seg_case_string(d)
+            if s is None:
+                out.violation('corr', 'view rising_curve_line_segment or its tables hold NULL values%s: %r'
+                              % (what(case), d['segments'][:4]), case=case)
+            else:
+                strs.append(s)
+                meta.append((d, 'segments', case))
+                out.count('views-coq:segments')
+                aligned = {e for e, _ in d['rise']['offsets']}
+                if d['rise']['offsets'] and any(e not in aligned for e, _ in d['pairing']):
+                    out.count('views-coq:segments:some-rise-left-out')
+    order, shard = _balanced(strs)
+    bad, errs, secs = C.run_case_shards(prop, label, VIEWS_PRE, 'any_case', 'check_any', [strs[i] for i in order],
+                                        shard=shard)
+    out.corr_errors += errs
+    bad = [order[i] for i in bad]
+    if not bad:
+        return secs
+    # which comparison failed (a second pass over the failing cases only)
+    sub = [strs[i] for i in bad]
+    bm, e1, t1 = C.run_case_shards(prop, label + '_model', VIEWS_PRE, 'any_case', 'check_any_model', sub, shard=4)
+    bc, e2, t2 = C.run_case_shards(prop, label + '_complete', VIEWS_PRE, 'any_case', 'check_any_complete', sub, shard=4)
+    out.corr_errors += e1 + e2
+    secs += t1 + t2
+    for j, i in enumerate(bad):
+        d, kind, case = meta[i]
+        if kind == 'segments':
+            aligned = {e for e, _ in d['rise']['offsets']}
+            extra = [r[:2] for r in d['segments'] if r[0] not in aligned]
+            out.count('views-coq:segments-differ')
+            out.violation('corr', 'Coq: Views.view_line_segments on the dumped tables <> rows returned by the view '
+                          'rising_curve_line_segment: the view has %d rows for %d aligned rises%s%s'
+                          % (len(d['segments']), len(aligned),
+                             ('; rises that have NO offset row are listed: %s' % extra[:4]) if extra else '', what(case)),
+                          case=case)
+            continue
+        view = KINDS[kind][3]
+        g = d['step'][0] if d['step'] else None
+        shown = [z for z, _ in d[kind]['view']]
+        if j in bc:
+            out.count('views-coq:level-dropped')
+            aligned = {e for e, _ in d[kind]['offsets']}
+            levels = sorted({k for e, k, _ in d[kind]['crossings'] if e in aligned})
+            out.violation('corr', 'Coq (conclusion of C13_view_shows_every_stored_level evaluated on the real tables): the '
+                          'view %s lists %d level(s), zeta_mm %s .. %s, but aligned intervals have crossing rows at %d '
+                          'levels, numbers %s .. %s (step %r mm; discrete_zeta %s .. %s): a level of the assembled curve is '
+                          'not shown%s' % (view, len(shown), min(shown, default=None), max(shown, default=None), len(levels),
+                                           levels[0] if levels else None, levels[-1] if levels else None, g,
+                                           min(d['grid'], default=None), max(d['grid'], default=None), what(case)),
+                          case=case)
+        if j in bm or j not in bc:
+            out.count('views-coq:model-vs-view')
+            out.violation('corr', 'Coq: Views.view_average on the dumped tables <> rows returned by the view %s '
+                          '(%d rows; first %r)%s' % (view, len(shown), d[kind]['view'][:3], what(case)), case=case)
+    return secs
